@@ -143,6 +143,21 @@ fn main() {
                 Err(e) => println!("ERR {e}"),
             }
         }
+        "time-pump" => {
+            // hv time-pump <unit> <n>...
+            use harper_core::linting::Linter;
+            let unit = args[2].clone();
+            let cur = harper_core::FstDictionary::curated();
+            let mut g = sweep::all_on(harper_core::Dialect::American, cur.clone());
+            for n in args.iter().skip(3).filter_map(|x| x.parse::<usize>().ok()) {
+                let text = unit.repeat(n);
+                let t0 = std::time::Instant::now();
+                let doc = harper_core::Document::new_plain_english_curated(&text);
+                let t1 = t0.elapsed().as_secs_f64();
+                let l = g.lint(&doc);
+                println!("n={n} chars={} tokens={} parse={:.4}s lint={:.4}s lints={}", text.chars().count(), doc.get_tokens().len(), t1, t0.elapsed().as_secs_f64() - t1, l.len());
+            }
+        }
         "c05-menu" => {
             println!("{}", e2::menu_output());
         }
